@@ -5,6 +5,7 @@ import fs from "node:fs";
 import path from "node:path";
 import { pathToFileURL, fileURLToPath } from "node:url";
 import { createHash } from "node:crypto";
+import { Worker as WorkerThread } from "node:worker_threads";
 import { Rng, canon, collectRefs, pool, alone, fnv32 } from "./lib.mjs";
 
 const HOME = process.env.VERIF_HOME || "/verif";
@@ -648,7 +649,16 @@ async function execStability(mods, run) {
   return out;
 }
 
+// A worker that outlives its parent while it spins in an endless loop of the code under test would
+// burn a CPU for ever; its own event loop never runs again, so the check lives in a second thread.
+function dieWithParent() {
+  const code = `const p = process.ppid; setInterval(() => { if (process.ppid !== p) process.kill(process.pid, "SIGKILL"); }, 1000);`;
+  const w = new WorkerThread(code, { eval: true });
+  w.unref();
+}
+
 async function workerMain(prop) {
+  dieWithParent();
   try {
     let ctxs = {};
     if (prop === "C13S") {
